@@ -198,3 +198,156 @@ fn c05_windowed_step_no_move() {
     kani::cover!(s.num_coupons == c0);
     core::mem::forget(s);
 }
+
+// ---------------------------------------------------------------------------------------------
+// serialization at sketch level (Empty / Sparse / Hybrid), wrapper agreement, update() derivation
+// ---------------------------------------------------------------------------------------------
+use crate::verif_kani_common::stub_format;
+
+fn rd_u16(b: &[u8], o: usize) -> u16 {
+    (b[o] as u16) | ((b[o + 1] as u16) << 8)
+}
+fn rd_u32(b: &[u8], o: usize) -> u32 {
+    (rd_u16(b, o) as u32) | ((rd_u16(b, o + 2) as u32) << 16)
+}
+fn rd_u64(b: &[u8], o: usize) -> u64 {
+    (rd_u32(b, o) as u64) | ((rd_u32(b, o + 4) as u64) << 32)
+}
+
+fn cpc_roundtrip_case<const N: usize>(merged: bool) {
+    let mut s = CpcSketch::new(4);
+    let mut model = [0u64; K];
+    let mut i = 0;
+    while i < N {
+        let row: u32 = kani::any();
+        let col: u32 = kani::any();
+        kani::assume(row < 16 && col < 64);
+        // distinct coupons so that the flavor is known: N = 1 Sparse, N = 2..3 Hybrid
+        kani::assume(model[row as usize] & (1u64 << col) == 0);
+        s.row_col_update((row << 6) | col);
+        model[row as usize] |= 1u64 << col;
+        i += 1;
+    }
+    s.merge_flag = merged;
+    let bytes = s.serialize();
+    // ---- spec decoder: CPC preamble (Java/C++ CpcSketch layout)
+    let has_hip = !merged;
+    let pre_ints = if N == 0 { 2 } else { 2 + 1 + (if has_hip { 4 } else { 0 }) + 1 };
+    assert!(bytes[0] == pre_ints, "preamble ints");
+    assert!(bytes[1] == 1 && bytes[2] == 16, "serial version 1 / family 16");
+    assert!(bytes[3] == 4, "lg_k");
+    assert!(bytes[4] == s.first_interesting_column, "first interesting column");
+    let flags = bytes[5];
+    assert!(flags & 2 != 0, "compressed flag (bit 1)");
+    assert!((flags & 4 != 0) == has_hip, "has-HIP flag (bit 2)");
+    assert!((flags & 8 != 0) == (N > 0), "has-table flag (bit 3): Sparse and Hybrid images carry only a table");
+    assert!(flags & 16 == 0, "has-window flag (bit 4) must be clear below the Pinned flavor");
+    assert!(flags & 1 == 0 && flags & 0xe0 == 0, "reserved flag bits");
+    assert!(rd_u16(&bytes, 6) == 0x93CC, "seed hash");
+    if N == 0 {
+        assert!(bytes.len() == 8, "empty image is 8 bytes");
+    } else {
+        assert!(rd_u32(&bytes, 8) == N as u32, "number of coupons");
+        let words = rd_u32(&bytes, 12) as usize;
+        let mut off = 16;
+        if has_hip {
+            assert!(rd_u64(&bytes, 16) == s.kxp.to_bits() && rd_u64(&bytes, 24) == s.hip_est_accum.to_bits(), "kxp / HIP accumulator");
+            off = 32;
+        }
+        assert!(bytes.len() == off + 4 * words, "image length = preamble + compressed table words");
+        assert!(bytes.len() == 4 * pre_ints as usize + 4 * words);
+    }
+    // ---- round trip
+    let g = crate::verif_kani_common::expect_ok(CpcSketch::deserialize(&bytes), "own CPC image rejected");
+    assert!(g.lg_k() == 4 && g.num_coupons() == N as u32, "lg_k / coupon count changed");
+    assert!(g.merge_flag == merged && g.first_interesting_column == s.first_interesting_column);
+    assert!(g.window_offset == 0);
+    if has_hip {
+        assert!(g.kxp.to_bits() == s.kxp.to_bits() && g.hip_est_accum.to_bits() == s.hip_est_accum.to_bits(), "HIP state changed");
+    }
+    let m = g.build_bit_matrix();
+    let mut r = 0;
+    while r < K {
+        assert!(m[r] == model[r], "bit matrix changed in the round trip");
+        r += 1;
+    }
+    assert!(g.validate());
+    // CpcWrapper reads the same preamble independently
+    let w = crate::verif_kani_common::expect_ok(crate::cpc::CpcWrapper::new(&bytes), "wrapper rejects the image");
+    assert!(w.lg_k() == 4 && w.is_empty() == (N == 0));
+    assert!(w.estimate().to_bits() == g.estimate().to_bits(), "wrapper estimate differs from the deserialized sketch");
+    core::mem::forget((s, g, m, bytes, w));
+}
+
+macro_rules! cpc_roundtrip {
+    ($name:ident, $n:expr, $merged:expr) => {
+        #[kani::proof]
+        #[kani::unwind(20)]
+        #[kani::stub(alloc::fmt::format, stub_format)]
+        #[kani::stub(<[u32]>::sort_unstable, crate::verif_kani_common::model_sort_unstable)]
+        fn $name() {
+            cpc_roundtrip_case::<$n>($merged);
+            kani::cover!(true);
+        }
+    };
+}
+
+//@ family: cpc_roundtrip
+//@ props: C11 C12 C05
+//@ tier: thorough
+//@ timeout: 2400
+//@ functions: cpc::sketch::CpcSketch::serialize
+//@ functions: cpc::sketch::CpcSketch::deserialize
+//@ functions: cpc::sketch::CpcSketch::deserialize_with_seed
+//@ functions: cpc::compression::CompressedState::compress
+//@ functions: cpc::compression::CompressedState::uncompress
+//@ functions: cpc::compression::CompressedState::compress_sparse_flavor
+//@ functions: cpc::compression::CompressedState::compress_hybrid_flavor
+//@ functions: cpc::compression::CompressedState::uncompress_sparse_flavor
+//@ functions: cpc::compression::CompressedState::uncompress_hybrid_flavor
+//@ functions: cpc::pair_table::PairTable::from_slots
+//@ functions: cpc::serialization::make_preamble_ints
+//@ functions: cpc::wrapper::CpcWrapper::new
+//@ functions: cpc::wrapper::CpcWrapper::estimate
+//@ unwind: 20
+//@ stubs: sort_unstable -> reference model
+//@ bounds: lg_k = 4 sketches built from 0 (Empty), 1 (Sparse) or 2 (Hybrid) distinct symbolic (row, col) coupons, with HIP state or marked merged
+//@ desc: serialize() writes the CPC preamble of the Java/C++ layout (preInts, serVer 1, family 16, lgK, fiCol, flags compressed|hip|table|window, seed hash, numCoupons, table words, kxp / HIP accumulator) as read by an independent decoder; deserialize restores the same bit matrix, coupon count, HIP state and flags; CpcWrapper agrees with the full deserialization
+cpc_roundtrip!(c11_cpc_roundtrip_empty, 0, false);
+cpc_roundtrip!(c11_cpc_roundtrip_sparse, 1, false);
+cpc_roundtrip!(c11_cpc_roundtrip_sparse_merged, 1, true);
+cpc_roundtrip!(c11_cpc_roundtrip_hybrid, 2, false);
+//@ endfamily: x
+
+//@ props: C05 C16
+//@ tier: quick
+//@ timeout: 900
+//@ functions: cpc::sketch::CpcSketch::update
+//@ functions: cpc::sketch::CpcSketch::update_f64
+//@ bounds: lg_k = 4 and 12, items 1u64, 42u64, u64::MAX (concrete; hash constant-folded); reference = /verif's MurmurHash3 transcription
+//@ desc: update(item) offers the coupon row = h1 & (k-1), column = min(63, leading zeros of h2) of the reference digest of the item's hashed bytes
+#[kani::proof]
+#[kani::unwind(20)]
+fn c05_update_row_col_reference() {
+    let items = [1u64, 42u64, u64::MAX];
+    let lgs = [4u8, 12u8];
+    let mut j = 0;
+    while j < 2 {
+        let mut i = 0;
+        while i < 3 {
+            let (h1, h2) = crate::verif_kani_common::refhash::murmur3_x64_128(&items[i].to_le_bytes(), 8, 9001);
+            let lz = h2.leading_zeros();
+            let col = if lz > 63 { 63 } else { lz };
+            let row = (h1 & ((1u64 << lgs[j]) - 1)) as u32;
+            let mut s = CpcSketch::new(lgs[j]);
+            s.update(items[i]);
+            assert!(s.num_coupons() == 1);
+            let m = s.build_bit_matrix();
+            assert!(m[row as usize] == 1u64 << col, "update() set a different (row, col) than the reference derivation");
+            core::mem::forget((s, m));
+            i += 1;
+        }
+        j += 1;
+    }
+    kani::cover!(true);
+}
